@@ -6,10 +6,16 @@ component of the path may be used; at the pinned commit the Python loop asserted
 -/
 namespace Logica.Imports
 
+/-- Python's `str.capitalize()` on ASCII: first character upper-cased, the rest lower-cased -/
+def capitalizePy (s : String) : String :=
+  match s.toList with
+  | [] => ""
+  | c :: cs => String.ofList (c.toUpper :: cs.map Char.toLower)
+
 /-- prefix built from the last `k+1` components: earlier components are prepended verbatim -/
 def prefixOf (parts : List String) (k : Nat) : String :=
   let rev := parts.reverse
-  (rev.drop 1 |>.take k).foldl (fun acc p => p ++ acc) ((rev.headD "").capitalize ++ "_")
+  (rev.drop 1 |>.take k).foldl (fun acc p => p ++ acc) (capitalizePy (rev.headD "") ++ "_")
 
 /-- the extension loop: smallest `k ≤ fuel` whose prefix is new, or `none` (the "paths equal modulo _ and /" error) -/
 def choosePrefix (existing : List String) (parts : List String) : Nat → Nat → Option String
